@@ -130,6 +130,15 @@ func runC06(p *core.Program, r *core.Report) {
 	// R6.5 generator side: the bound is only meaningful if the draws are uniform
 	checkDrawRoutines(p, r, "R6.5", "R6.5", "R6.5")
 	checkAlphabetProvenance(p, r, "R6.5")
+	// the strings Generate can return are exactly those the count behind Entropy() counts: whole
+	// candidates over the alphabet, kept iff they hit every required set (= C02 R2.4/R2.5 re-run;
+	// a filter that accepts fewer strings makes each of them likelier than 2^-Entropy)
+	if g, _ := resolveCharGen(p); g != nil {
+		r.Borrow("R6.5", func() {
+			checkWholeCandidateRejection(p, r, g, "R2.4")
+			checkFilterAllOf(p, r, g, "R2.5")
+		})
+	}
 }
 
 // checkDrawTermAgreement: schemes with a bonus in Entropy == schemes that draw in Generate, with matching bounds.
